@@ -16,8 +16,8 @@ LOCAL Key(i) == <<162, 64 + (i \div 60), 64 + (i % 60)>>          \* fixstr of t
 LOCAL Pairs(n) == IF n = 0 THEN <<>> ELSE [i \in 1..(n * 4) |-> LET p == (i - 1) \div 4  q == (i - 1) % 4 IN IF q < 3 THEN Key(p)[q + 1] ELSE 1]
 LOCAL Adj(n) == {n} \cup (IF n > 0 THEN {n - 1} ELSE {}) \cup {n + 1}
 \* <<count, width>>
-LOCAL Wide == { <<0, 2>>, <<1, 2>>, <<15, 2>>, <<16, 2>>, <<31, 2>>, <<32, 2>>, <<255, 2>>, <<256, 2>>, <<257, 2>>, <<0, 4>>, <<1, 4>>, <<16, 4>>, <<32, 4>>, <<256, 4>> }
-LOCAL Byte == { <<0, 1>>, <<1, 1>>, <<15, 1>>, <<16, 1>>, <<31, 1>>, <<32, 1>>, <<254, 1>>, <<255, 1>> }
+LOCAL Wide == { <<0, 2>>, <<1, 2>>, <<15, 2>>, <<16, 2>>, <<31, 2>>, <<32, 2>>, <<255, 2>>, <<256, 2>>, <<0, 4>>, <<1, 4>>, <<16, 4>>, <<256, 4>> }
+LOCAL Byte == { <<0, 1>>, <<1, 1>>, <<15, 1>>, <<16, 1>>, <<31, 1>>, <<32, 1>>, <<255, 1>> }
 LOCAL Fix15 == { <<0, 0>>, <<1, 0>>, <<14, 0>>, <<15, 0>> }          \* fixarray / fixmap: 4-bit count
 LOCAL Fix31 == { <<0, 0>>, <<1, 0>>, <<15, 0>>, <<16, 0>>, <<30, 0>>, <<31, 0>> }   \* fixstr: 5-bit length
 MsgpackRepInputs ==
